@@ -82,6 +82,7 @@ type c21Scenario struct {
 	Knobs   node.Knobs `json:"knobs"`
 	Tick    float64    `json:"tick"`
 	Split   float64    `json:"split"`
+	Window  int        `json:"window,omitempty"` // send window of the serving node on inter-node backup streams (0 = unlimited)
 	Ops     []c21Op    `json:"ops"`
 }
 
@@ -137,11 +138,12 @@ func c21Gen(r *core.Rand, tier string) any {
 	sc := &c21Scenario{Seed: r.Uint64()}
 	sc.Clients = r.Range(1, 3)
 	sc.Preload = r.Range(5, 50)
-	sc.PadMax = []int{60, 400, 1200}[r.Intn(3)]
+	sc.PadMax = []int{300, 1000, 1600}[r.Intn(3)]
 	sc.Tick = []float64{0.02, 0.08, 0.2}[r.Intn(3)]
 	if r.Bool(0.3) {
 		sc.Split = 0.05
 	}
+	sc.Window = []int{0, 4096, 4096, 16384, 16384, 65536}[r.Intn(6)]
 	sc.Knobs = node.Knobs{ApplyTimeout: 5 * time.Second}
 	if r.Bool(0.5) {
 		sc.Knobs.SnapshotThreshold = uint64(r.Range(4, 16))
@@ -153,7 +155,7 @@ func c21Gen(r *core.Rand, tier string) any {
 		nops = r.Range(80, 200)
 	}
 	nb, rows := 0, sc.Preload
-	sweeps := 0
+	sweeps, stress := 0, 0
 	for i := 0; i < nops; i++ {
 		x := r.Intn(100)
 		switch {
@@ -170,17 +172,15 @@ func c21Gen(r *core.Rand, tier string) any {
 				bo := c21GenBackup(r, sc, rows)
 				sc.Ops = append(sc.Ops, bo)
 				nb++
-				if len(bo.Parks) > 0 && r.Bool(0.5) {
-					// make sure something happens while the copy is parked: writes,
-					// then a snapshot (checkpoint of the WAL into the database file)
-					for k, nw := 0, r.Range(1, 3); k < nw; k++ {
-						sc.Ops = append(sc.Ops, c21Op{Kind: "w", Client: r.Intn(sc.Clients), Node: r.Intn(4), Gap: r.Range(3, 10)})
-						rows++
-					}
-					sc.Ops = append(sc.Ops, c21Op{Kind: "snap", Node: bo.Node, Gap: r.Intn(5)})
-					if r.Bool(0.5) {
-						sc.Ops = append(sc.Ops, c21Op{Kind: "w", Client: r.Intn(sc.Clients), Node: r.Intn(4), Gap: r.Range(3, 10)})
-						rows++
+				binaryCopy := bo.Format == "binary" && !bo.Vacuum
+				forwarded := bo.Node < 0 && !bo.NoLeader
+				if (binaryCopy && r.Bool(0.8)) || (len(bo.Parks) > 0 && r.Bool(0.4)) {
+					burst, nrows := c21GenBurst(r, sc, &bo, forwarded)
+					sc.Ops[len(sc.Ops)-1] = bo
+					sc.Ops = append(sc.Ops, burst...)
+					rows += nrows
+					if binaryCopy {
+						stress++
 					}
 				}
 			}
@@ -214,7 +214,59 @@ func c21Gen(r *core.Rand, tier string) any {
 	if nb == 0 {
 		sc.Ops = append(sc.Ops, c21GenBackup(r, sc, rows))
 	}
+	if stress == 0 {
+		// every run has at least one raw copy of the live database file (binary,
+		// not vacuumed), served locally or forwarded, with writes and several
+		// snapshot attempts while the copy is in progress
+		bo := c21GenBackup(r, sc, rows)
+		bo.Format, bo.Vacuum, bo.Tables = "binary", false, ""
+		forwarded := bo.Node < 0 && !bo.NoLeader
+		burst, _ := c21GenBurst(r, sc, &bo, forwarded)
+		at := 0
+		if len(sc.Ops) > 0 {
+			at = r.Intn(len(sc.Ops) + 1)
+		}
+		ins := append([]c21Op{bo}, burst...)
+		sc.Ops = append(sc.Ops[:at], append(ins, sc.Ops[at:]...)...)
+	}
 	return sc
+}
+
+// c21GenBurst returns the ops that run while the copy of backup bo is in
+// progress: committed writes (they touch the first pages - balances, counter -
+// and the last pages - new rows - of the file) interleaved with 1-3 snapshot
+// attempts on the serving node (each one, if admitted, checkpoints the WAL into
+// the database file). bo is adjusted so that the destination parks early in the
+// copy and stays parked for the whole burst; a forwarded backup is not cut (its
+// stream is slowed by the scenario's send window instead).
+func c21GenBurst(r *core.Rand, sc *c21Scenario, bo *c21Op, forwarded bool) ([]c21Op, int) {
+	var ops []c21Op
+	rows := 0
+	w := func() {
+		ops = append(ops, c21Op{Kind: "w", Client: r.Intn(sc.Clients), Node: r.Intn(4), Gap: r.Range(6, 14)})
+		rows++
+	}
+	target := bo.Node
+	if forwarded {
+		target = 0
+		bo.Cut = false
+	}
+	for k, nw := 0, r.Range(1, 2); k < nw; k++ {
+		w()
+	}
+	for k, ns := 0, r.Range(1, 3); k < ns; k++ {
+		ops = append(ops, c21Op{Kind: "snap", Node: target, Gap: r.Intn(4)})
+		if r.Bool(0.5) {
+			w()
+		}
+	}
+	if r.Bool(0.5) {
+		bo.Parks = []int{r.Intn(3)}
+	} else {
+		bo.Parks = []int{r.Intn(2), 2 + r.Intn(4)}
+	}
+	bo.Hold = len(ops)
+	return ops, rows
 }
 
 // ---------------------------------------------------------------- workload model
@@ -455,6 +507,9 @@ func (h *c21H) installTap() {
 			cmd := &clstrPB.Command{}
 			if err := pb.Unmarshal(buf[8:8+sz], cmd); err == nil && cmd.Type == clstrPB.Command_COMMAND_TYPE_BACKUP_STREAM {
 				h.armed = &c21Arm{srv: to, base: to.SentLocked()}
+				if h.sc.Window > 0 {
+					to.SetWindowLocked(h.sc.Window) // the serving node's copy advances only as the driver delivers
+				}
 				h.limit = -1
 			}
 			buf = buf[8+sz:]
@@ -1259,6 +1314,12 @@ func c21Run(c *core.Ctx, raw json.RawMessage) {
 				if h.cur != nil && h.cur.pw.parked {
 					c.Probe("snapshot_while_backup_parked")
 				}
+				// Snapshot ids carry a millisecond timestamp and the fake clock stands
+				// still while code runs: let at least 2 ms pass so that two snapshot
+				// requests in a row are not stamped with the same instant (which no
+				// real clock would do; the sink then refuses to rename onto the
+				// existing id and the store deliberately exits the process).
+				h.runFor(2 * time.Millisecond)
 				nn := n
 				var err error
 				t := s.Go(fmt.Sprintf("snapshot n%d", n.Idx), func() { err = nn.Store.Snapshot(0) })
